@@ -2,10 +2,10 @@ package rules
 
 import (
 	"fmt"
-	"go/token"
 	"sort"
 	"strings"
 
+	"golang.org/x/tools/go/callgraph"
 	"golang.org/x/tools/go/ssa"
 
 	"verif/checker/internal/an"
@@ -563,9 +563,25 @@ func c103(c *an.Ctx, p *an.Prog) {
 	}
 }
 
+// goroutineReach: the module functions root's goroutine can run — everything reachable without crossing `go`, not
+// descending into library code, but through the compiler's wrappers of module methods (a bound method value such as
+// h.runAllHooks handed over as a callback is called through its $bound wrapper, which is nobody's source).
+func goroutineReach(p *an.Prog, root *ssa.Function) map[*ssa.Function]*callgraph.Edge {
+	return p.Reach([]*ssa.Function{root}, an.ReachOpts{Stop: func(f *ssa.Function) bool {
+		if p.InRepo(f) {
+			return false
+		}
+		if f.Synthetic != "" && f.Syntax() == nil {
+			pp := an.FnPkgPath(f)
+			return !(pp == an.Module || strings.HasPrefix(pp, an.Module+"/"))
+		}
+		return true
+	}})
+}
+
 // slowCalls lists calls reachable from root (without crossing go) that can wait on external things.
 func slowCalls(p *an.Prog, root *ssa.Function) []string {
-	reach := p.Reach([]*ssa.Function{root}, an.ReachOpts{OnlyRepo: true})
+	reach := goroutineReach(p, root)
 	var bad []string
 	for f := range reach {
 		if !p.InRepo(f) {
@@ -602,7 +618,7 @@ func c104(c *an.Ctx, p *an.Prog) {
 	if hr := p.Method("/cmd/whawty-auth", "HooksCaller", "run"); need(c, "C10.4", hr, "main.(*HooksCaller).run") {
 		bad := slowCalls(p, hr)
 		// blocking channel operations in the hooks role: only the select of run itself
-		reach := p.Reach([]*ssa.Function{hr}, an.ReachOpts{OnlyRepo: true})
+		reach := goroutineReach(p, hr)
 		for _, o := range p.ChanOps() {
 			if _, ok := reach[o.Fn]; !ok {
 				continue
@@ -614,162 +630,313 @@ func c104(c *an.Ctx, p *an.Prog) {
 				bad = append(bad, "select-send in the hooks goroutine at "+p.InstrPos(o.In))
 			}
 		}
+		// a blocking select is this goroutine's idle wait only if it is ready to take a notification there: one of its
+		// cases receives from hooks.Notify (a select that waits for a hook process or its timer is a wait for the hook)
+		{
+			idle := map[ssa.Instruction]bool{}
+			var sels []an.ChanOp
+			for _, o := range p.ChanOps() {
+				if _, ok := reach[o.Fn]; !ok || !o.InSelect || !o.Blocking {
+					continue
+				}
+				sels = append(sels, o)
+				if o.Kind == "recv" && strings.Contains(o.Desc, "HooksCaller.Notify") {
+					idle[o.In] = true
+				}
+			}
+			for _, o := range sels {
+				if !idle[o.In] {
+					bad = append(bad, fmt.Sprintf("blocking select in %s at %s that does not take notifications: the hooks goroutine waits for something else there", fnKey(o.Fn), p.InstrPos(o.In)))
+				}
+			}
+		}
 		c.Check(len(bad) == 0, "C10.4", "hooks|never-waits", p.Pos(hr.Pos()), "the hooks goroutine only waits in its own receive-select; hook processes are started, never waited for, on its path", strings.Join(uniqS(bad), "; "))
 	}
 	semaphoreReleased(c, p, "C10.4")
 	if ru := p.Func("/cmd/whawty-auth", "remoteHTTPUpgrader"); need(c, "C10.4", ru, "main.remoteHTTPUpgrader") {
 		bad := slowCalls(p, ru)
+		// the upgrader's own goroutine: ru and everything it calls without crossing `go` (an acquire() method of a
+		// semaphore type is part of it). The only place it may wait is the receive on its input queue.
+		role := goroutineReach(p, ru)
 		for _, o := range p.ChanOps() {
-			if o.Fn != ru {
+			if _, ok := role[o.Fn]; !ok || !p.InRepo(o.Fn) {
 				continue
 			}
 			if o.Kind == "send" && o.Blocking {
 				bad = append(bad, "blocking send in the upgrader loop at "+p.InstrPos(o.In)+" (rate limiting must not block the queue drain)")
+			}
+			if o.Kind == "recv" && o.Blocking {
+				for _, m := range o.Sites {
+					if _, own := role[m.Parent()]; own {
+						bad = append(bad, "the upgrader waits on a channel of its own at "+p.InstrPos(o.In)+" (it must only ever wait for its input queue)")
+					}
+				}
 			}
 		}
 		c.Check(len(bad) == 0, "C10.4", "remote-upgrader|drains-without-blocking", p.Pos(ru.Pos()), "semaphore taken only in a select with default; the HTTP call runs behind `go`", strings.Join(uniqS(bad), "; "))
 	}
 }
 
-// releasesChan: does function f, on every path to every exit, receive from the channel bound to free variable /
-// parameter `name` (directly, through a deferred closure, or by calling a function-typed parameter that the
-// caller bound to a closure doing so)?
-func receivesOn(fn *ssa.Function, isSem func(v ssa.Value) bool) bool {
-	for _, in := range an.DeepInstrs(fn) {
-		{
-			if u, ok := in.(*ssa.UnOp); ok && u.Op == token.ARROW && isSem(u.X) {
-				return true
-			}
+// onCycle: block b lies on a cycle of its function's control-flow graph.
+func onCycle(b *ssa.BasicBlock) bool {
+	seen := map[*ssa.BasicBlock]bool{}
+	st := append([]*ssa.BasicBlock{}, b.Succs...)
+	for len(st) > 0 {
+		x := st[len(st)-1]
+		st = st[:len(st)-1]
+		if x == b {
+			return true
 		}
+		if seen[x] {
+			continue
+		}
+		seen[x] = true
+		st = append(st, x.Succs...)
 	}
 	return false
 }
 
-// semaphoreReleased: a goroutine started after taking a slot of a counting-semaphore channel (send in a select)
-// gives the slot back on every path — otherwise failures leak slots until every later job is refused.
+// runsOnceIn: instruction `in` (in root or in a helper root calls) is executed at most once per activation of root:
+// neither it nor any call on the chain from root down to it sits in a loop.
+func runsOnceIn(p *an.Prog, root *ssa.Function, in ssa.Instruction, depth int) bool {
+	if in.Block() == nil || onCycle(in.Block()) {
+		return false
+	}
+	f := in.Parent()
+	if f == root {
+		return true
+	}
+	if depth > 4 {
+		return false
+	}
+	n := p.CG.Nodes[f]
+	if n == nil || len(n.In) == 0 {
+		return false
+	}
+	for _, e := range n.In {
+		if _, isCall := e.Site.(*ssa.Call); !isCall || !runsOnceIn(p, root, e.Site, depth+1) {
+			return false
+		}
+	}
+	return true
+}
+
+// selectChose: the index of the case the select event e took on path s (-1: the default branch; -2: unknown).
+func selectChose(s *an.PathState, e an.Event) int {
+	if e.Res == nil {
+		return -2
+	}
+	ne := 0
+	sel, _ := e.In.(*ssa.Select)
+	for _, a := range s.Atoms {
+		if a.B == nil || a.A.Op != "extract" || a.A.Aux != "0" || len(a.A.Args) == 0 || a.A.Args[0].K != e.Res.K {
+			continue
+		}
+		if v, ok := a.B.ConstInt(); ok {
+			switch a.Op {
+			case "==":
+				return int(v)
+			case "!=":
+				ne++
+			}
+		}
+	}
+	if sel != nil && !sel.Blocking && ne >= len(sel.States) {
+		return -1
+	}
+	return -2
+}
+
+// semaphoreReleased: the remote upgrader limits the upgrades in flight with a counting semaphore. The semaphore is
+// found by what it does, not by how it is spelled: a channel the upgrader's own goroutine creates and sends on
+// (directly, in a select, or inside acquire/release methods of a channel type — helpers are interpreted inline and the
+// channel points-to relates every operation to its creation site). Demanded: it is buffered and made once per upgrader;
+// a job goroutine is started only after a slot was taken on that very path, and a slot that was taken is handed to a
+// job; the job gives the slot back on every path to every exit — otherwise failures leak slots until every later
+// upgrade is refused.
 func semaphoreReleased(c *an.Ctx, p *an.Prog, rule string) {
 	ru := p.Func("/cmd/whawty-auth", "remoteHTTPUpgrader")
 	if ru == nil {
 		return
 	}
-	// the semaphore: a local make(chan) used as a select-send in ru
+	ops := p.ChanOps()
+	opsAt := map[ssa.Instruction][]an.ChanOp{}
+	for _, o := range ops {
+		opsAt[o.In] = append(opsAt[o.In], o)
+	}
+	role := goroutineReach(p, ru) // the upgrader's own goroutine
+	inRole := func(f *ssa.Function) bool { _, ok := role[f]; return ok && p.InRepo(f) }
+	cand := map[*ssa.MakeChan]bool{}
+	for _, o := range ops {
+		if o.Kind != "send" || !inRole(o.Fn) {
+			continue
+		}
+		for _, m := range o.Sites {
+			if inRole(m.Parent()) {
+				cand[m] = true
+			}
+		}
+	}
 	var sem *ssa.MakeChan
-	for _, in := range an.DeepInstrs(ru) {
-		{
-			if sel, ok := in.(*ssa.Select); ok {
-				for _, st := range sel.States {
-					if st.Send != nil {
-						v := st.Chan
-						if u, ok := v.(*ssa.UnOp); ok {
-							if al, ok := u.X.(*ssa.Alloc); ok {
-								for _, r := range *al.Referrers() {
-									if s2, ok := r.(*ssa.Store); ok {
-										if mk, ok := s2.Val.(*ssa.MakeChan); ok {
-											sem = mk
-										}
-									}
-								}
-							}
+	for m := range cand {
+		if sem == nil || m.Pos() < sem.Pos() {
+			sem = m
+		}
+	}
+	if sem == nil {
+		c.Undecided(rule, fnKey(ru)+"|semaphore", p.Pos(ru.Pos()), "UNRESOLVED: no counting semaphore (a channel made by the remote upgrader's goroutine on which that goroutine sends) found in the remote upgrader")
+		return
+	}
+	if len(cand) > 1 {
+		c.Undecided(rule, fnKey(ru)+"|semaphore", p.Pos(ru.Pos()), fmt.Sprintf("UNRESOLVED: the remote upgrader's goroutine sends on %d channels of its own; cannot tell which is the semaphore", len(cand)))
+		return
+	}
+	isSem := func(in ssa.Instruction, state int) bool {
+		os := opsAt[in]
+		if state >= 0 {
+			if state >= len(os) {
+				return false
+			}
+			os = os[state : state+1]
+		}
+		for _, o := range os {
+			for _, m := range o.Sites {
+				if m == sem {
+					return true
+				}
+			}
+		}
+		return false
+	}
+	{
+		var bad []string
+		if an.ChanCap(sem) == 0 {
+			bad = append(bad, "the semaphore is unbuffered: a non-blocking acquire never succeeds, no upgrade is ever started")
+		}
+		if !runsOnceIn(p, ru, sem, 0) {
+			bad = append(bad, "the semaphore is not made exactly once per upgrader (made in a loop, or in a helper called from one): it limits nothing")
+		}
+		c.Check(len(bad) == 0, rule, fnKey(ru)+"|semaphore-shape", p.InstrPos(sem), fmt.Sprintf("buffered channel (capacity %d) made once by the upgrader's goroutine", an.ChanCap(sem)), strings.Join(bad, "; "))
+	}
+	// ---- acquire before the job starts; an acquired slot is handed to a job ----
+	{
+		var bad []string
+		nGo := 0
+		visit := func(s *an.PathState) {
+			held := false
+			for _, e := range s.Events {
+				switch e.Kind {
+				case "send":
+					if isSem(e.In, -1) {
+						held = true
+					}
+				case "select":
+					if k := selectChose(s, e); k >= 0 && isSem(e.In, k) {
+						if sel, _ := e.In.(*ssa.Select); sel != nil && k < len(sel.States) && sel.States[k].Send != nil {
+							held = true
+						} else {
+							held = false // a receive on the semaphore gives the slot back
 						}
-						if mk, ok := v.(*ssa.MakeChan); ok {
-							sem = mk
+					} else if k == -2 && isSem(e.In, -1) {
+						bad = append(bad, "cannot tell whether a slot was taken on path "+s.BlockPath())
+					}
+				case "recv":
+					if isSem(e.In, -1) {
+						held = false
+					}
+				case "go":
+					nGo++
+					if !held {
+						bad = append(bad, fmt.Sprintf("%s is started without a rate-limit slot having been taken on that path (path %s [%s])", shortName(e.Callee), s.BlockPath(), s.FactsString()))
+					}
+					held = false // the job owns the slot now
+				}
+			}
+			if held {
+				bad = append(bad, fmt.Sprintf("a rate-limit slot is taken but neither handed to a job nor given back (path %s [%s]): after %d such rounds every later upgrade is refused", s.BlockPath(), s.FactsString(), an.ChanCap(sem)))
+			}
+		}
+		for f := range role {
+			if !inRole(f) || an.Inlinable(f) {
+				continue // helpers are seen inside their callers
+			}
+			an.EnumPaths(f, nil, nil, visit)
+			for _, h := range loopHeaders(f) {
+				an.EnumPathsTo(f, h, nil, h, visit)
+			}
+		}
+		c.Check(len(bad) == 0 && nGo > 0, rule, fnKey(ru)+"|slot-taken-before-job", p.Pos(ru.Pos()), "every job is started holding a slot taken on that path; no slot is taken without a job", strings.Join(uniqS(bad), "; "))
+	}
+	// ---- the job gives the slot back on every path ----
+	// releases(f): every path of f to every exit receives from the semaphore (itself, in a helper or deferred function
+	// interpreted inline, by calling a function that does, or by calling a parameter bound to such a function)
+	memo := map[*ssa.Function]int{}
+	var releases func(f *ssa.Function, relParams map[int]bool, depth int) []string
+	releases = func(f *ssa.Function, relParams map[int]bool, depth int) []string {
+		var bad []string
+		nexit := 0
+		er := an.EnumPaths(f, nil, nil, func(s *an.PathState) {
+			nexit++
+			released := false
+			for _, e := range s.Events {
+				switch {
+				case e.Kind == "recv" && isSem(e.In, -1):
+					released = true
+				case e.Kind == "select":
+					if k := selectChose(s, e); k >= 0 && isSem(e.In, k) {
+						if sel, _ := e.In.(*ssa.Select); sel != nil && sel.States[k].Send == nil {
+							released = true
+						}
+					}
+				case e.Kind == "call" && e.Fn != nil && p.InRepo(e.Fn) && len(e.Fn.Blocks) > 0 && depth < 3:
+					v, ok := memo[e.Fn]
+					if !ok {
+						memo[e.Fn] = 0
+						if len(releases(e.Fn, nil, depth+1)) == 0 {
+							memo[e.Fn] = 1
+						}
+						v = memo[e.Fn]
+					}
+					if v == 1 {
+						released = true
+					}
+				case e.Kind == "call" && strings.HasPrefix(e.Callee, "dynamic p:"):
+					for i, prm := range f.Params {
+						if relParams[i] && e.Callee == "dynamic p:"+prm.Name() {
+							released = true
 						}
 					}
 				}
 			}
+			if !released {
+				bad = append(bad, fmt.Sprintf("%s can finish without giving its rate-limit slot back (path %s [%s]): after %d such failures every later upgrade is refused", fnKey(f), s.BlockPath(), s.FactsString(), an.ChanCap(sem)))
+			}
+		})
+		if !er.Complete || nexit == 0 {
+			bad = append(bad, "cannot enumerate the paths of "+fnKey(f))
 		}
-	}
-	if sem == nil {
-		c.Undecided(rule, fnKey(ru)+"|semaphore", p.Pos(ru.Pos()), "UNRESOLVED: no counting semaphore (select-send on a local channel) found in the remote upgrader")
-		return
+		return bad
 	}
 	n := 0
 	for _, gs := range p.GoSites() {
-		if gs.Parent != ru {
+		if !inRole(gs.Parent) {
 			continue
 		}
 		n++
 		var bad []string
 		for _, job := range gs.Callees {
-			// closures that release the semaphore: those (transitively nested in ru) that receive from a free variable named like the semaphore cell
-			releasers := map[*ssa.Function]bool{}
-			var collect func(f *ssa.Function)
-			collect = func(f *ssa.Function) {
-				for _, af := range f.AnonFuncs {
-					if receivesOn(af, func(v ssa.Value) bool {
-						if u, ok := v.(*ssa.UnOp); ok {
-							_, isFV := u.X.(*ssa.FreeVar)
-							return isFV
-						}
-						_, isFV := v.(*ssa.FreeVar)
-						return isFV
-					}) {
-						releasers[af] = true
-					}
-					collect(af)
-				}
-			}
-			collect(ru)
-			// a named job that is handed the semaphore itself: its own (deferred) closures receiving from the captured
-			// parameter release the slot
-			if job.Parent() == nil && !gs.In.Common().IsInvoke() {
-				semPassed := false
-				for _, a := range gs.In.Common().Args {
-					v := a
-					if ct, ok := v.(*ssa.ChangeType); ok {
-						v = ct.X
-					}
-					if v == ssa.Value(sem) {
-						semPassed = true
-					}
-					if u, ok := v.(*ssa.UnOp); ok {
-						if al, ok := u.X.(*ssa.Alloc); ok {
-							for _, r := range *al.Referrers() {
-								if s2, ok := r.(*ssa.Store); ok && s2.Val == ssa.Value(sem) {
-									semPassed = true
-								}
-							}
-						}
-					}
-				}
-				if semPassed {
-					collect(job)
-				}
-			}
-			// which parameters of job are bound to a releaser closure at the go site?
+			// parameters of the job that the go statement binds to a function which itself always releases
 			relParams := map[int]bool{}
 			if !gs.In.Common().IsInvoke() {
 				for i, a := range gs.In.Common().Args {
-					if mc, ok := a.(*ssa.MakeClosure); ok && releasers[mc.Fn.(*ssa.Function)] {
-						relParams[i] = true
-					}
-				}
-			}
-			nexit := 0
-			er := an.EnumPaths(job, nil, nil, func(s *an.PathState) {
-				nexit++
-				released := false
-				for _, e := range s.Events {
-					switch {
-					case e.Kind == "recv":
-						released = true // the job's only channel is the semaphore cell it captured
-					case e.Kind == "call" && e.Fn != nil && releasers[e.Fn]:
-						released = true
-					case e.Kind == "call" && strings.HasPrefix(e.Callee, "dynamic p:"):
-						for i, prm := range job.Params {
-							if relParams[i] && e.Callee == "dynamic p:"+prm.Name() {
-								released = true
-							}
+					if mc, ok := a.(*ssa.MakeClosure); ok {
+						if cf, _ := mc.Fn.(*ssa.Function); cf != nil && len(releases(cf, nil, 1)) == 0 {
+							relParams[i] = true
 						}
 					}
 				}
-				if !released {
-					bad = append(bad, fmt.Sprintf("%s can finish without giving its rate-limit slot back (path %s [%s]): after %d such failures every later upgrade is refused", fnKey(job), s.BlockPath(), s.FactsString(), an.ChanCap(sem)))
-				}
-			})
-			if !er.Complete || nexit == 0 {
-				bad = append(bad, "cannot enumerate the job's paths")
 			}
+			bad = append(bad, releases(job, relParams, 0)...)
 		}
 		c.Check(len(bad) == 0, rule, fnKey(ru)+"|slot-released-on-every-path", p.InstrPos(gs.In), "the upgrade job releases its semaphore slot on every exit (deferred)", strings.Join(uniqS(bad), "; "))
 	}
